@@ -322,10 +322,59 @@ def sub_chunk(cases):
 # end-to-end reassembly (pool workers)
 # ------------------------------------------------------------------------------------------------
 
-def make_image(mode, w, h, seed):
-    """A seeded image in which every pixel is defined (no NaN, alpha >= 1, integers non-zero)."""
+def punch_holes(a, mode, gx0, gy0, seed):
+    """Undefined regions laid out on the global tile grid (the image's pixel (0,0) is global (gx0, gy0)):
+    1 a whole tile plus a 7-pixel rim in ONE plane (F16x3: one colour plane; other modes have one plane)
+    2 another whole tile in ALL planes (such a tile is not stored - C15's rule - and must read back undefined)
+    3 F16x3: a whole tile in which every pixel has exactly one NaN channel, the channel varying per pixel
+    4 the sliver of the image inside its first (partial) tile column, one plane
+    5 a small rectangle, all planes."""
     import numpy as np
+    g = np.random.default_rng(seed + 977)
+    h, w = a.shape[:2]
+
+    def undef(ys, xs, plane):
+        if ys.stop <= ys.start or xs.stop <= xs.start:
+            return
+        if mode == "F16x3" and plane is not None:
+            a[ys, xs, plane] = np.nan
+        elif mode == "RGBA":
+            a[ys, xs] = 0
+        else:
+            a[ys, xs] = np.nan
+
+    def span(t, g0, n, rim=0):
+        return slice(max(0, t * TS - g0 - rim), min(n, (t + 1) * TS - g0 + rim))
+    txs = list(range((gx0 + TS - 1) // TS, (gx0 + w) // TS))       # tiles lying completely inside the image
+    tys = list(range((gy0 + TS - 1) // TS, (gy0 + h) // TS))
+    k = seed % 3
+    if txs and tys:
+        undef(span(tys[0], gy0, h, 7), span(txs[0], gx0, w, 7), k)
+        if len(txs) > 1 or len(tys) > 1:
+            undef(span(tys[-1], gy0, h), span(txs[-1], gx0, w), None)
+        if mode == "F16x3" and len(txs) > 1 and len(tys) > 1:
+            ys, xs = span(tys[0], gy0, h), span(txs[-1], gx0, w)
+            ch = g.integers(0, 3, (ys.stop - ys.start, xs.stop - xs.start))
+            blk = a[ys, xs]
+            for c in range(3):
+                blk[..., c][ch == c] = np.nan
+    first_cols = slice(0, min(w, TS - gx0 % TS))
+    rows = span(tys[0], gy0, h) if tys else slice(0, min(h, TS - gy0 % TS))
+    undef(rows, first_cols, (k + 1) % 3)
+    y0, x0 = int(g.integers(0, h)), int(g.integers(0, w))
+    undef(slice(y0, min(h, y0 + 9)), slice(x0, min(w, x0 + 13)), None)
+    return a
+
+
+def make_image(mode, w, h, seed, holes=None):
+    """A seeded image. Without `holes` every pixel is defined (no NaN, alpha >= 1, integers non-zero);
+    holes = (gx0, gy0) punches undefined regions aligned with the tile grid (float modes and RGBA)."""
+    import numpy as np
+    if holes is not None:
+        return punch_holes(make_image(mode, w, h, seed), mode, holes[0], holes[1], seed)
     g = np.random.default_rng(seed)
+    if mode == "F16x3":
+        return (g.normal(size=(h, w, 3)) * 8).astype(np.float16)
     if mode == "RGB":
         return g.integers(0, 256, (h, w, 3), dtype=np.uint8)
     if mode == "RGBA":
@@ -382,6 +431,7 @@ def reassemble(outdir, template, lev, fmt, mode):
     n = side * TS
     frow = np.asarray(T.filerow[PARITY[fmt]])       # display row r -> file row (TLC)
     colour = mode in ("RGB", "RGBA")
+    planes = 4 if colour else (3 if mode == "F16x3" else 0)
     mosaic = None
     undefined = np.ones((n, n), dtype=bool)
     problems = []
@@ -392,18 +442,20 @@ def reassemble(outdir, template, lev, fmt, mode):
             if not os.path.exists(path):
                 continue
             arr = read_tile_file(path, fmt)
-            want = (TS, TS, 4) if colour else (TS, TS)
+            want = (TS, TS, planes) if planes else (TS, TS)
             if arr.shape != want:
                 problems.append("tile %s has shape %s, expected %s" % (rel, arr.shape, want))
                 continue
             disp = arr[frow]                         # display row r is file row frow[r]
-            if mosaic is None:
-                mosaic = np.zeros((n, n, 4), dtype=arr.dtype) if colour else np.zeros((n, n), dtype=arr.dtype)
+            if mosaic is None:           # a tile that is not stored reads as undefined: NaN / transparent black / 0
+                mosaic = np.zeros((n, n, planes) if planes else (n, n), dtype=arr.dtype)
+                if arr.dtype.kind == "f":
+                    mosaic[...] = np.nan
             mosaic[ty * TS:(ty + 1) * TS, tx * TS:(tx + 1) * TS] = disp
             if colour:
                 und = disp[..., 3] == 0
             elif arr.dtype.kind == "f":
-                und = np.isnan(disp)
+                und = np.isnan(disp) if disp.ndim == 2 else np.isnan(disp).all(axis=2)
             else:
                 und = disp == 0                      # integer modes: zero is the undefined value
             undefined[ty * TS:(ty + 1) * TS, tx * TS:(tx + 1) * TS] = und
@@ -420,21 +472,26 @@ def judge_mosaic(tag, case, mosaic, undefined, problems, img, gx0, gy0, mode):
         res.append(("V", tag + ":inside", "no deepest-level tile was found for %s" % (case,), case))
         return res
     inside = mosaic[gy0:gy0 + h, gx0:gx0 + w]
-    und_in = undefined[gy0:gy0 + h, gx0:gx0 + w]
-    ok_inside = inside.shape[:2] == (h, w) and not und_in.any()
+    isfloat = img.dtype.kind == "f"
+    ok_inside = inside.shape[:2] == (h, w)
     if ok_inside:
         if mode == "RGB":
             ok_inside = np.array_equal(inside[..., :3], img) and bool((inside[..., 3] == 255).all())
-        else:
-            ok_inside = inside.dtype.itemsize == img.dtype.itemsize and inside.dtype.kind == img.dtype.kind and np.array_equal(inside, img)
+        else:       # exactly the image, including which pixels / channels are undefined
+            ok_inside = (inside.shape == img.shape and inside.dtype.itemsize == img.dtype.itemsize and inside.dtype.kind == img.dtype.kind
+                         and np.array_equal(inside, img, equal_nan=isfloat))
     if not ok_inside:
         where = ""
         if inside.shape[:2] == (h, w):
             cmpi = inside[..., :3] if mode == "RGB" else inside
-            d = (cmpi != img)
-            if d.ndim == 3:
-                d = d.any(axis=2)
-            d = d | und_in
+            if cmpi.shape != img.shape:
+                d = np.ones((h, w), dtype=bool)
+            else:
+                d = (cmpi != img)
+                if isfloat:
+                    d = d & ~(np.isnan(cmpi) & np.isnan(img))
+                if d.ndim == 3:
+                    d = d.any(axis=2)
             ys, xs = np.nonzero(d)
             if len(ys):
                 where = " (first difference at image pixel x=%d y=%d; %d pixels differ)" % (xs[0], ys[0], len(ys))
